@@ -442,6 +442,28 @@ def check_history(case):
             if kind == "bad" and step[1].startswith("scale-collapse"):
                 # the image is degenerate only through rounding: both forms must agree (reject and keep the
                 # object, or accept with pmin < pmax); an accepted step ends the modelled history
+                # ... unless the image edge is about ONE unit in the last place of the image coordinates: there "collapsed"
+                # and "resolved" are a matter of the last rounding, and every later test (divisibility of a subregion into
+                # cells of 1 ulp) is noise: the two forms need not agree there (DESIGN section 3); a refusal still has to
+                # leave the object untouched and an accepted result still has to be a valid object
+                r0 = o.region_of(o.a)
+                tiny_ = 10.0 ** -step[4]
+                axes_ = range(r0.ndim) if step[1] == "scale-collapse" else [step[2]]
+                if step[6] == "far":
+                    ref_ = [float(a_) + step[5] * float(e_) for a_, e_ in zip(r0.pmin, r0.edges)]
+                elif step[6] == "centre":
+                    ref_ = [float(c_) for c_ in r0.center]
+                else:
+                    ref_ = [float(c_) for c_ in r0.center]
+                on_threshold = False
+                for d_ in axes_:
+                    img_edge = float(r0.edges[d_]) * tiny_
+                    mag_ = max(abs(ref_[d_]), img_edge, 1e-300)
+                    ratio = img_edge / (np.finfo(float).eps * mag_)
+                    if 1 / 64 < ratio < 64:
+                        on_threshold = True
+                if on_threshold:
+                    tag("collapse:on-the-rounding-threshold")
                 outcome = []
                 for x, ip in ((o.a, step[3]), (o.b, not step[3])):
                     before = o.snap(x)
@@ -465,7 +487,7 @@ def check_history(case):
                             raise Violation("degenerate-accepted:" + step[1] + ":cell", f"{o.kind}: cell {my.cell}")
                     outcome.append("accepted")
                 tag("collapse:" + "/".join(outcome))
-                if o.kind != "field" and len(set(outcome)) != 1:
+                if o.kind != "field" and len(set(outcome)) != 1 and not on_threshold:
                     raise Violation("forms-disagree-on-degenerate:" + step[1],
                                     f"{o.kind} step {si}: in-place={step[3]} first -> {outcome}")
                 if "accepted" in outcome:
